@@ -411,6 +411,68 @@ def potable_cli(run):
         shutil.rmtree(d, ignore_errors=True)
 
 
+def shipped_listings(run):
+    """--list-items / --list-item-labels / --item-value on the potable files the repository ships: every item of the file exactly
+    once (counted by an independent strict INI reader), labels = the keys of the listing, --item-value = the listed value"""
+    import glob, configparser
+    from lib import boot as _boot
+    for path in sorted(glob.glob(os.path.join(_boot.REPO, "**", "*.aspot"), recursive=True)):
+        rel = os.path.relpath(path, _boot.REPO)
+        sig = dict(engine="inidoc", clause="listing", route="cli", whitespace_key=False, theme="shipped")
+        raw = configparser.RawConfigParser(strict=True, delimiters=("=", ":"), interpolation=None)
+        raw.optionxform = lambda k: "".join(k.split())
+        raw.read(path)
+        want = set()
+        for sname in raw.sections():
+            for k in raw.options(sname):
+                want.add("%s:%s" % (sname.strip(), k))
+        try:
+            st, so, se = run_cli([path, "--list-items"])
+            st2, so2, se2 = run_cli([path, "--list-item-labels"])
+        except Exception as e:
+            run.violation(sig, "[listing] %s: --list-items raised %s: %s" % (rel, type(e).__name__, e), dict(file=rel))
+            continue
+        run.evaluations += 2
+        run.replayed += 1
+        run.distinct("listing:" + rel)
+        if st != 0 or st2 != 0:
+            run.violation(sig, "[listing] %s: --list-items / --list-item-labels exit with status %s / %s: %s" % (rel, st, st2, (se + se2).strip().splitlines()[-1][:200] if (se + se2).strip() else ""), dict(file=rel))
+            continue
+        # a value that spans several lines is printed on several lines: a line starts an item when what precedes its first '='
+        # is a SECTION:KEY of the file (by the independent reader) - anything else continues the previous value
+        wantn = {"".join(x.split()) for x in want}
+        items = []
+        for ln in so.splitlines():
+            if "=" in ln and "".join(ln.split("=", 1)[0].split()) in wantn:
+                items.append(ln)
+            elif items:
+                items[-1] += "\n" + ln
+            elif ln.strip():
+                items.append(ln)
+        labels = [ln.split("=", 1)[0] for ln in items]
+        norm = ["".join(x.split()) for x in labels]
+        if len(set(norm)) != len(norm):
+            dup = sorted(x for x in set(norm) if norm.count(x) > 1)
+            run.violation(sig, "[listing] %s: --list-items reports %s more than once" % (rel, dup[:3]), dict(file=rel))
+        if set(norm) != {"".join(x.split()) for x in want}:
+            missing = sorted({"".join(x.split()) for x in want} - set(norm))
+            extra = sorted(set(norm) - {"".join(x.split()) for x in want})
+            run.violation(sig, "[listing] %s: --list-items does not report %s / reports %s which an independent reader does not find" % (rel, missing[:4], extra[:4]), dict(file=rel))
+        if [ln for ln in so2.splitlines() if ln.strip()] != labels:
+            run.violation(sig, "[listing] %s: --list-item-labels is not the key column of --list-items" % rel, dict(file=rel))
+        for ln in items[:: max(1, len(items) // 6)]:
+            if "=" not in ln:
+                continue
+            lab, val = ln.split("=", 1)
+            try:
+                st3, so3, se3 = run_cli([path, "--item-value", lab])
+            except Exception as e:
+                st3, so3, se3 = 1, "", "%s: %s" % (type(e).__name__, e)
+            run.evaluations += 1
+            if st3 != 0 or so3.rstrip("\n") != val:
+                run.violation(sig, "[listing] %s: --item-value %s gives %r (status %s), --list-items shows %r" % (rel, lab, so3.rstrip("\n")[:80], st3, val[:80]), dict(file=rel, label=lab))
+
+
 def main_c14(tier, seed):
     global _CASES
     import multiprocessing as mp
@@ -467,6 +529,7 @@ def main_c14(tier, seed):
                                   dict(case=case, base=render_file(case["file"]), args=cli_args(case["ops"])))
             c14_traces(run, tier, seed)
             potable_cli(run)
+            shipped_listings(run)
             run.rule = "cases = base file x option sequence (TLC) x {CLI, ConfigParser API} + listing queries; non-trivial = at least one option; distinct by (file, options)"
     except tlc.TLCError as e:
         run.machinery(str(e))
